@@ -13,6 +13,7 @@ from ..storejudge import decode_store, expected_post_codes, in_core_domain, STOR
 from ..monitor import CallbackRecorder
 
 ID = 'C04'
+TECHNIQUE = "runtime monitoring: recording callbacks (the library's own notification points) + status snapshots along write / reset / resize / arithmetic histories, judged against a shadow flag model; sticky-flag monitor (U3)"
 TITLE = 'flags and callbacks exact and sticky'
 RULE = ('write events on core-domain objects (plain values by constructor/call/set_val/indexed assignment; resize as a re-store): status '
         'after = status before OR {overflow: some rounded element > max, underflow: some < min, inaccuracy: some stored value != input}; the '
